@@ -236,14 +236,53 @@ func CheckOne(t testing.TB, id, kind string, c any, fn CheckFunc) bool {
 	return true
 }
 
+// PropFunc builds the rapid property of id/kind: draw a case, skip known
+// findings, run the check on the JSON form of the case, keep the failing case
+// as a replay file. It is shared by Prop (rapid.Check) and by the native fuzz
+// targets (rapid.MakeFuzz).
+func PropFunc[C any](id, kind string, draw func(*rapid.T) C, fn CheckFunc, onFail func(path string)) func(*rapid.T) {
+	Register(id, kind, fn)
+	return func(rt *rapid.T) {
+		c := draw(rt)
+		raw, err := json.Marshal(c)
+		if err != nil {
+			panic(fmt.Sprintf("case not serialisable: %v", err))
+		}
+		if isKnown(id, kind, raw) {
+			mu.Lock()
+			get(id).Excluded++
+			mu.Unlock()
+			rt.Skip("known finding excluded")
+		}
+		r, err := fn(raw)
+		if err != nil {
+			if inc, ok := err.(*Inconclusive); ok {
+				MarkInconclusive(id, "%s: %s", kind, inc.Msg)
+				path := filepath.Join(replayDir(), fmt.Sprintf("%s-%s-inconclusive-%s.json", id, kind, shard()))
+				b, _ := json.MarshalIndent(replayFile{Property: id, Kind: kind, Error: err.Error(), Case: raw}, "", " ")
+				_ = os.WriteFile(path, b, 0o644)
+				fmt.Printf("INCONCLUSIVE-CASE property=%s kind=%s file=%s\n", id, kind, path)
+				rt.Skip("inconclusive case")
+			}
+			freeze(id)
+			path := saveFailure(id, kind, raw, err)
+			if onFail != nil {
+				onFail(path)
+			}
+			rt.Fatalf("%s/%s: %v", id, kind, err)
+		}
+		record(id, kind, raw, r, 97)
+	}
+}
+
 // Prop runs fn over cases drawn by draw under rapid. The case type must be
 // JSON-serialisable; the check function receives the JSON form so that the
 // replay path is literally the same code.
 func Prop[C any](t *testing.T, id, kind string, draw func(*rapid.T) C, fn CheckFunc) {
 	t.Helper()
-	Register(id, kind, fn)
 	var lastFail string
 	failed := false
+	prop := PropFunc(id, kind, draw, fn, func(path string) { failed, lastFail = true, path })
 	func() {
 		// rapid.Check ends the test with FailNow on failure; keep control.
 		defer func() {
@@ -254,36 +293,16 @@ func Prop[C any](t *testing.T, id, kind string, draw func(*rapid.T) C, fn CheckF
 				fmt.Printf("VIOLATION-CASE property=%s kind=%s file=%s\n", id, kind, lastFail)
 			}
 		}()
-		rapid.Check(t, func(rt *rapid.T) {
-			c := draw(rt)
-			raw, err := json.Marshal(c)
-			if err != nil {
-				panic(fmt.Sprintf("case not serialisable: %v", err))
-			}
-			if isKnown(id, kind, raw) {
-				mu.Lock()
-				get(id).Excluded++
-				mu.Unlock()
-				rt.Skip("known finding excluded")
-			}
-			r, err := fn(raw)
-			if err != nil {
-				if inc, ok := err.(*Inconclusive); ok {
-					MarkInconclusive(id, "%s: %s", kind, inc.Msg)
-					path := filepath.Join(replayDir(), fmt.Sprintf("%s-%s-inconclusive-%s.json", id, kind, shard()))
-					b, _ := json.MarshalIndent(replayFile{Property: id, Kind: kind, Error: err.Error(), Case: raw}, "", " ")
-					_ = os.WriteFile(path, b, 0o644)
-					fmt.Printf("INCONCLUSIVE-CASE property=%s kind=%s file=%s\n", id, kind, path)
-					rt.Skip("inconclusive case")
-				}
-				freeze(id)
-				failed = true
-				lastFail = saveFailure(id, kind, raw, err)
-				rt.Fatalf("%s/%s: %v", id, kind, err)
-			}
-			record(id, kind, raw, r, 97)
-		})
+		rapid.Check(t, prop)
 	}()
+}
+
+// Fuzz runs the same property under Go's native coverage-guided fuzzer.
+func Fuzz[C any](f *testing.F, id, kind string, draw func(*rapid.T) C, fn CheckFunc) {
+	prop := PropFunc(id, kind, draw, fn, func(path string) {
+		fmt.Printf("VIOLATION-CASE property=%s kind=%s file=%s\n", id, kind, path)
+	})
+	f.Fuzz(rapid.MakeFuzz(prop))
 }
 
 // KeyFunc maps a case to the canonical key used in KNOWN_FINDINGS.txt.
